@@ -148,6 +148,68 @@ def probe_pcfg(repo):
     return a
 
 
+def ast_lcfg(repo):
+    """A: process_noise copies the list of noise objects it is given; B: Model.get_noise returns a new list"""
+    from vlib.core import TranslatorError
+    tree = ast.parse(open(os.path.join(repo, "src/qutip_qip/noise.py")).read())
+    f = _func(tree, None, "process_noise")
+    a = False
+    for st in f.body:
+        if isinstance(st, ast.Assign) and len(st.targets) == 1 and isinstance(st.targets[0], ast.Name) \
+                and st.targets[0].id == "noise_list":
+            v = st.value
+            if (isinstance(v, ast.Call) and isinstance(v.func, ast.Attribute) and v.func.attr == "copy"
+                    and isinstance(v.func.value, ast.Name) and v.func.value.id == "noise_list") or \
+                    ((_is_call(v, "list") or _is_call(v, "copy") or _is_call(v, "deepcopy")) and v.args
+                     and isinstance(v.args[0], ast.Name) and v.args[0].id == "noise_list"):
+                a = True
+            else:
+                raise TranslatorError("process_noise: assignment of noise_list not recognised: " + ast.dump(v)[:120])
+    tree = ast.parse(open(os.path.join(repo, "src/qutip_qip/device/processor.py")).read())
+    f = _func(tree, "Model", "get_noise")
+    if f is None:
+        raise TranslatorError("Model.get_noise not found")
+    rets = [n.value for n in ast.walk(f) if isinstance(n, ast.Return) and n.value is not None
+            and not (isinstance(n.value, ast.List) and not n.value.elts)]
+    if len(rets) != 1:
+        raise TranslatorError("Model.get_noise: return statements not recognised")
+    v = rets[0]
+    if isinstance(v, ast.Attribute) and v.attr == "_noise":
+        b = False
+    elif (_is_call(v, "list") or _is_call(v, "copy") or _is_call(v, "deepcopy")) or \
+            (isinstance(v, ast.Call) and isinstance(v.func, ast.Attribute) and v.func.attr == "copy"):
+        b = True
+    else:
+        raise TranslatorError("Model.get_noise: returned value not recognised: " + ast.dump(v)[:120])
+    return {"noiseListCopy": a, "modelCopy": b}
+
+
+def behaviour_lcfg():
+    from qutip_qip.noise import process_noise, ControlAmpNoise
+    from qutip_qip.device.processor import Model
+    lst = [ControlAmpNoise(coeff=1)]
+    process_noise([], lst, [2], t1=5.0)
+    m = Model(1)
+    m._add_noise(ControlAmpNoise(coeff=1))
+    return {"noiseListCopy": len(lst) == 1, "modelCopy": m.get_noise() is not m._noise}
+
+
+def probe_lcfg(repo):
+    from vlib.core import TranslatorError
+    a, b = ast_lcfg(repo), behaviour_lcfg()
+    if a != b:
+        raise TranslatorError(f"copies of the LIST of noise objects (process_noise / Model.get_noise): source reading {a} "
+                              f"and behaviour {b} differ")
+    return a
+
+
+def lcopy_of(w, lcfg):
+    """is a copy of the noise LIST made between its owner and process_noise's append, for this witness"""
+    if w.get("via") == "direct" or w.get("model", "builtin") in ("duck", "sub"):
+        return lcfg["noiseListCopy"]
+    return lcfg["noiseListCopy"] or lcfg["modelCopy"]
+
+
 def pcfg_str(p):
     return ("1" if p["procCopy"] else "0") + p["noiseCopy"][0]
 
@@ -250,10 +312,17 @@ def build(w):
     if w.get("t2") is not None:
         kw["t2"] = w["t2"]
     if w["proc"] == "generic":
-        proc = Processor(n, **kw)
         ops = [qutip.sigmax(), qutip.sigmay(), qutip.sigmaz()]
+        mk = w.get("model", "builtin")
+        if mk == "duck":
+            proc = Processor(model=DuckModel(n, {"u%d" % i: (ops[i % 3], [i % n]) for i in range(len(w["ideals"]))}, kw))
+        elif mk == "sub":
+            proc = Processor(model=make_sub_model(n, kw))
+        else:
+            proc = Processor(n, **kw)
         for i, ideal in enumerate(w["ideals"]):
-            proc.add_control(ops[i % 3], i % n, label="u%d" % i)
+            if mk != "duck":
+                proc.add_control(ops[i % 3], i % n, label="u%d" % i)
         if w["ideals"]:
             proc.set_coeffs({"u%d" % i: np.ones(2) * float(v) for i, v in enumerate(w["ideals"])})
             proc.set_tlist({"u%d" % i: np.array([0.0, 0.5, 1.0]) for i, v in enumerate(w["ideals"])})
@@ -274,9 +343,78 @@ def build(w):
     objs = []
     for spec in w["noise"]:
         o = make_noise(spec, n, gen, d=proc.dims[0])
-        proc.add_noise(o)
+        if isinstance(proc.model, DuckModel):
+            proc.model.noise_objects.append(o)
+        else:
+            proc.add_noise(o)
         objs.append(o)
+    if w.get("via") == "direct":
+        proc = DirectCall(proc.pulses, objs, proc.dims, w.get("t1"), w.get("t2"))
     return proc, ideals, gen, objs
+
+
+class DuckModel:
+    """a user-defined hardware model that does not inherit from Model (allowed by its documentation); `get_noise`
+    hands out the model's own list"""
+
+    def __init__(self, num_qubits, controls, params):
+        self.num_qubits = num_qubits
+        self.dims = [2] * num_qubits
+        self.params = dict(params)
+        self.controls = controls
+        self.noise_objects = []
+
+    def get_all_drift(self):
+        return []
+
+    def get_control(self, label):
+        return self.controls[label]
+
+    def get_control_labels(self):
+        return list(self.controls)
+
+    def get_noise(self):
+        return self.noise_objects
+
+
+def make_sub_model(n, params):
+    from qutip_qip.device.processor import Model
+
+    class SubModel(Model):
+        """a user subclass of Model whose get_noise hands out its own list"""
+
+        def get_noise(self):
+            return self._noise
+
+    return SubModel(n, **params)
+
+
+class DirectCall:
+    """the public function `process_noise` called with caller-owned lists of pulses and of noise objects"""
+
+    def __init__(self, pulses, noise_list, dims, t1, t2):
+        self.pulses = pulses
+        self.noise_list = noise_list
+        self.dims = dims
+        self.t1, self.t2 = t1, t2
+
+    @property
+    def noise(self):
+        return self.noise_list
+
+    def get_noisy_pulses(self, device_noise=False):
+        from qutip_qip.noise import process_noise
+        return process_noise(self.pulses, self.noise_list, self.dims, t1=self.t1, t2=self.t2,
+                             device_noise=device_noise)
+
+
+def owner_list(proc):
+    """the list object that owns the noise objects"""
+    if isinstance(proc, DirectCall):
+        return proc.noise_list
+    if isinstance(proc.model, DuckModel):
+        return proc.model.noise_objects
+    return getattr(proc.model, "_noise", None)
 
 
 # ------------------------------------------------------------------------------------------
@@ -382,7 +520,7 @@ def encode_noise(spec, n):
     raise ValueError(c)
 
 
-def encode(w, pcfg, ideals, ndims, ncalls=None):
+def encode(w, pcfg, ideals, ndims, ncalls=None, lcfg=None):
     """driver request for the first `ncalls` calls (None when the witness is outside the model: invalid t1/t2);
     `ndims` = number of components of the processor (noise objects are given `dims`)"""
     n = ndims
@@ -399,16 +537,19 @@ def encode(w, pcfg, ideals, ndims, ncalls=None):
         parts.append(e)
     if w.get("zz_builtin"):
         parts.insert(0, encode_noise({"c": "zz"}, n))
+    t12 = "N"
     if w.get("t1") is not None or w.get("t2") is not None:
         t = relax_tokens(w.get("t1"), w.get("t2"), n)
         if t is None:
             return None
         us = lambda l: "_".join(str(x) for x in l) if l else "e"
-        parts.append("X." + us(t))
+        t12 = us(t)           # RelaxationNoise(t1, t2) is appended by process_noise on every call
     calls = w["calls"] if ncalls is None else w["calls"][:ncalls]
     cs = ",".join("1" if (c[0] != "noisy" or c[1]) else "0" for c in calls)
-    return (f"pulses pcfg={pcfg_str(pcfg)} held={','.join(map(str, ideals)) if ideals else 'N'} "
-            f"noise={';'.join(parts) if parts else 'N'} rng={','.join(map(str, w.get('rng') or [])) or 'N'} calls={cs}")
+    pc = dict(pcfg, procCopy=False) if w.get("via") == "direct" else pcfg      # no Processor.get_noisy_pulses in between
+    return (f"pulses pcfg={pcfg_str(pc)} held={','.join(map(str, ideals)) if ideals else 'N'} "
+            f"noise={';'.join(parts) if parts else 'N'} rng={','.join(map(str, w.get('rng') or [])) or 'N'} calls={cs} "
+            f"t12={t12} lcopy={'1' if (lcfg is None or lcopy_of(w, lcfg)) else '0'}")
 
 
 def do_call(proc, c, n):
@@ -455,7 +596,8 @@ def run_impl(w):
                 else:
                     ret.append(pulse_tokens(p, 0, n))
         held = [pulse_tokens(p, ideals[i], n) for i, p in enumerate(proc.pulses)]
-        out.append((verdict, ret, held))
+        ol = owner_list(proc)
+        out.append((verdict, ret, held, None if ol is None else len(ol)))
     return out, ideals, len(proc.dims)
 
 
@@ -504,6 +646,8 @@ def oracle_pnoise(w):
     counts0 = noise_counts(proc)
     noise0 = [snap({k: v for k, v in vars(o).items() if k != "rand_gen"}) for o in proc.noise]
     ids0 = [id(p) for p in proc.pulses]
+    own = owner_list(proc)
+    own0 = None if own is None else [id(o) for o in own]
     for j, c in enumerate(w["calls"]):
         c = tuple(c)
         pos = gen.pos
@@ -517,6 +661,11 @@ def oracle_pnoise(w):
         pos_after = gen.pos
 
         def changed(when):
+            if own is not None and [id(o) for o in own] != own0:
+                whose = ("the caller's list of noise objects given to process_noise" if isinstance(proc, DirectCall)
+                         else "the list of noise objects held by the processor's model (" + type(proc.model).__name__ + ")")
+                return (f"call {j} {c[0]}{when} changed {whose}: {len(own0)} entries before, now "
+                        f"{[type(o).__name__ for o in own]}")
             if [id(p) for p in proc.pulses] != ids0:
                 return f"call {j} {c[0]}{when} replaced the Pulse objects held by the processor"
             cn = noise_counts(proc)
@@ -586,7 +735,12 @@ W_AMP_CHAIN = {"kind": "pnoise", "proc": "linear", "n": 2,
                "noise": [{"c": "amp", "idx": None, "coeff": 2}], "rng": [], "calls": [["run_state"], ["run_state"]]}
 W_RAND = {"kind": "pnoise", "proc": "generic", "n": 2, "ideals": [2, 5], "noise": [{"c": "rand", "idx": [1]}],
           "rng": [4, 7, 9, 11], "calls": [["qobjevo"], ["noisy", True]]}
-FIXED = [W_AMP, W_AMP_CHAIN, W_RAND]
+W_LIST_DIRECT = {"kind": "pnoise", "proc": "generic", "via": "direct", "n": 1, "ideals": [3], "t1": 20, "t2": 15,
+                 "noise": [{"c": "amp", "idx": None, "coeff": 2}], "rng": [], "calls": [["noisy", True], ["noisy", True]]}
+W_LIST_DUCK = {"kind": "pnoise", "proc": "generic", "model": "duck", "n": 1, "ideals": [2], "t1": 5,
+               "noise": [{"c": "amp", "idx": None, "coeff": 2}], "rng": [], "calls": [["run_state"], ["run_state"]]}
+W_LIST_SUB = dict(W_LIST_DUCK, model="sub", calls=[["qobjevo"], ["noisy", True]])
+FIXED = [W_AMP, W_AMP_CHAIN, W_RAND, W_LIST_DIRECT, W_LIST_DUCK, W_LIST_SUB]
 
 DEVICE_1Q = ["SNOT", "X", "RX", "RZ", "RY"]
 
@@ -633,6 +787,13 @@ def rand_pnoise(rng, thorough=False):
         n = rng.randint(1, 3)
         k = rng.randint(1, 4)
         w = {"kind": "pnoise", "proc": "generic", "n": n, "ideals": [rng.choice([2, 3, 5, -4]) for _ in range(k)]}
+        r = rng.random()
+        if r < 0.25:
+            w["model"] = "duck"            # user-defined hardware model (not a Model subclass)
+        elif r < 0.4:
+            w["model"] = "sub"             # Model subclass overriding get_noise
+        elif r < 0.65:
+            w["via"] = "direct"            # the public process_noise with caller-owned lists
     else:
         proc = rng.choice(["linear", "linear", "circular", "cqed", "scq"])
         n = rng.randint(2, 3) if proc in ("circular", "scq") else rng.randint(1, 3)
@@ -651,7 +812,7 @@ def rand_pnoise(rng, thorough=False):
         w = {"kind": "pnoise", "proc": proc, "n": n, "circuit": gs}
         if proc == "scq" and rng.random() < 0.5:
             w["zz_builtin"] = True
-    if rng.random() < 0.25:
+    if rng.random() < (0.6 if (w.get("model") or w.get("via")) else 0.25):
         w["t1"] = rng.choice([50, 100])
         if rng.random() < 0.5:
             w["t2"] = rng.choice([40, 50])
@@ -671,7 +832,7 @@ def finish_pnoise(rng, w, k):
     solver_ok = w["proc"] in ("generic", "linear", "circular") or (w["proc"] == "cqed" and n <= 2)
     for _ in range(rng.randint(2, 5)):
         r = rng.random() * (1.0 if solver_ok else 0.8)
-        if r < 0.55:
+        if r < 0.55 or w.get("via") == "direct":
             calls.append(["noisy", rng.random() < 0.5])
         elif r < 0.8:
             calls.append(["qobjevo"])
